@@ -153,6 +153,8 @@
 //!   this feature must be used with care.  The instant type for this crate is
 //!   then re-exported top-level module.
 #![warn(missing_docs)]
+// the `similar_verif` cfg guards simulation seams used by external verification tooling
+#![allow(unexpected_cfgs)]
 pub mod algorithms;
 pub mod iter;
 #[cfg(feature = "text")]
@@ -165,6 +167,8 @@ mod deadline_support;
 #[cfg(feature = "text")]
 mod text;
 mod types;
+#[cfg(similar_verif)]
+pub mod verif;
 
 pub use self::common::*;
 #[cfg(feature = "text")]
